@@ -843,9 +843,24 @@ def p_resp_msg(eng, st, name, args, site, depth, call):
     if op in ("set_data", "set_ack"):
         return one(st, ("resp", r[1], r[2], m))
     how = {"add_message": "msg", "add_messages": "msgs", "add_submessage": "submsg", "add_submessages": "submsgs"}[op]
-    if how in ("msgs", "submsgs") and m[0] == "list":
-        ents = tuple((how[:-1], x) for x in m[1])
-        return one(st, ("resp", r[1], r[2] + ents, r[3]))
+    if how in ("msgs", "submsgs"):
+        # the argument is any IntoIterator: flatten the spellings that denote a known sequence
+        # ([a, b], Some(a) / None, a.into_iter().chain(b)) into single entries; an opaque collection stays one `msgs` entry
+        def flat(x):
+            if x[0] == "list":
+                return [(how[:-1], y) for y in x[1]]
+            if x[0] == "variant" and x[1] == OPTION:
+                return [(how[:-1], x[3][0][1])] if x[2] == "Some" else []
+            if x[0] == "call" and x[1].endswith("Iterator::chain") and len(x[2]) == 2:
+                return flat(x[2][0]) + flat(x[2][1])
+            if x[0] == "call" and x[1] in ("std::iter::once", "core::iter::once") and len(x[2]) == 1:
+                return [(how[:-1], x[2][0])]
+            if x[0] == "call" and x[1] in ("std::iter::empty", "core::iter::empty"):
+                return []
+            if x[0] == "default":
+                return []       # Default of a collection / Option is empty
+            return [(how, x)]
+        return one(st, ("resp", r[1], r[2] + tuple(flat(m)), r[3]))
     return one(st, ("resp", r[1], r[2] + ((how, m),), r[3]))
 
 
